@@ -102,6 +102,26 @@ def h_child_keys(prf_id, integ_id, keylen, proto, with_dh):
     return ['child_keys', bool(ok)]
 
 
+def h_sequence(order):
+    """several derivations in ONE process, one after the other, with different suites (AES key lengths, integrity algorithms, PRFs): state kept
+    between derivations (caches of algorithm objects, memoised sizes) must not leak from one suite into the next"""
+    out = []
+    for kind, a in order:
+        r = h_ike_keys(*a) if kind == 'ike' else h_child_keys(*a)
+        if isinstance(r, dict):
+            return r
+        out.append(r[-1])
+    return ['sequence', all(out)]
+
+
+SEQUENCES = {
+    'aes256 then aes128 (IKE)': [('ike', (5, 12, 256, False, True, 16)), ('ike', (5, 12, 128, False, True, 16))],
+    'aes128 then aes256 (IKE)': [('ike', (5, 12, 128, False, False, 16)), ('ike', (5, 12, 256, False, False, 16))],
+    'IKE aes256/sha256 then ESP aes128/sha1 then AH sha512': [('ike', (5, 12, 256, False, True, 16)), ('child', (5, 2, 128, 3, False)), ('child', (5, 14, 256, 2, True))],
+    'ESP aes128 then IKE aes256 with another PRF then ESP aes256': [('child', (2, 12, 128, 3, False)), ('ike', (7, 14, 256, True, False, 16)), ('child', (7, 12, 256, 3, True))],
+}
+
+
 # ----------------------------------------------------------------------------- Diffie-Hellman: groups and encodings
 RFC3526_C = {2048: 124476, 3072: 1690314, 4096: 240904, 6144: 929484, 8192: 4743158}
 RFC3526_GROUP = {14: 2048, 15: 3072, 16: 4096, 17: 6144, 18: 8192}
@@ -315,6 +335,8 @@ def build_instances(tier):
     inst.append(Instance('MODP primes (RFC 3526) and ECP curves (RFC 5903)', h_primes, ()))
     for g in ((14, 19, 21) if tier == 'quick' else (14, 15, 16, 17, 18, 19, 20, 21)):
         inst.append(Instance(f'DH group {g} encodings', h_dh, (g,), engine_kw={'query_timeout_ms': 120000}))
+    for name, order in SEQUENCES.items():
+        inst.append(Instance(f'sequence: {name}', h_sequence, (order,)))
     sizes = {'quick': (0, 1, 19, 20, 21, 32, 33, 64, 65, 100, 224), 'thorough': tuple(range(0, 330, 1))}[tier]
     for prf_id in PRFS:
         for size in sizes:
